@@ -11,6 +11,10 @@ void GMGPolar::solve()
     /* Initialize starting solution */
     /* ---------------------------- */
 
+    /* The residual and error histories describe this solve only. */
+    residual_norms_.clear();
+    exact_errors_.clear();
+
     auto start_initial_approximation = std::chrono::high_resolution_clock::now();
     initializeSolution();
     auto end_initial_approximation = std::chrono::high_resolution_clock::now();
